@@ -12,6 +12,11 @@ CLAIMED = {
     "C05": ("SMT (z3 real arithmetic) over symbolic execution of the unit-conversion functions and every "
             "units-managed accessor for all ordered unit pairs; bounded programs of nested contexts / library "
             "calls executed on the real Manager", "4/C05", ""),
+    "C07": ("SMT (z3 nonlinear real arithmetic) over symbolic execution of apply / convert_2_tensor / transform / "
+            "_OTI / _TTI / the time-dependent and time-independent Redfield implementations (spline integral as an "
+            "uninterpreted congruent function)", "4/C07",
+            "The clause about the analytic pure-dephasing limit exp(-i w t - g(t)) is not decided (values of "
+            "transcendental functions, step error)."),
     "C13": ("SMT (z3 nonlinear real arithmetic with exact algebraic roots of unity) over symbolic execution of the "
             "real axis-conjugation and DFunction Fourier-transform code", "4/C13", ""),
     "C14": ("SMT (z3; IEEE exp under/overflow as axioms on an uninterpreted Exp; division-by-zero side "
@@ -31,5 +36,5 @@ CLAIMED = {
 }
 _NYB = "check not built yet in this round (design in DESIGN.md section 4); not claimed until its harness is sound"
 NOT_APPLICABLE = {p: _NYB for p in
-                  ["C%02d" % i for i in range(2, 20) if i not in (2, 3, 5, 13, 14, 16, 17, 19)]}
+                  ["C%02d" % i for i in range(2, 20) if i not in (2, 3, 5, 7, 13, 14, 16, 17, 19)]}
 SOURCE_COMMITS = []
